@@ -17,6 +17,18 @@ import (
 
 func main() { common.Main(common.Stream{Gen: gen, Run: run}) }
 
+// text of message <id>: the messages the recorder logs are formatted error strings, which may contain
+// anything — per cent signs, format verbs, quotes
+func text(id string) string {
+	switch id {
+	case "1":
+		return "Recording not started: disk 97% used on /var/spool/cptv"
+	case "2":
+		return "Can't start recording file: open /tmp/a%20b/%s%d%v: no such file"
+	}
+	return "message-" + id
+}
+
 func run(in *bufio.Scanner, w *bufio.Writer) {
 	var l *loglimiter.LogLimiter
 	var now time.Time
@@ -39,10 +51,10 @@ func run(in *bufio.Scanner, w *bufio.Writer) {
 		case "m": // m <t ns> <message id> [f]  — "f" uses Printf
 			now = base.Add(time.Duration(common.Atoi(f[1])))
 			buf.Reset()
-			msg := "message-" + f[2]
+			msg := text(f[2])
 			common.Guard(w, "print", func() {
 				if len(f) > 3 {
-					l.Printf("message-%s", f[2])
+					l.Printf("%s", msg)
 				} else {
 					l.Print(msg)
 				}
@@ -70,14 +82,14 @@ func gen(r *common.Rng, tier string, w *bufio.Writer) {
 		}
 	}
 	if tier == "thorough" {
-		// exhaustive: histories of length <= 6 over 3 messages x 4 time steps, interval 10
+		// exhaustive: histories of length <= 5 over 3 messages x 4 time steps, interval 10
 		steps := []int64{0, 9, 10, 11}
 		var rec func(ops []string, t int64)
 		rec = func(ops []string, t int64) {
 			if len(ops) > 0 {
 				emit(10, ops)
 			}
-			if len(ops) == 6 {
+			if len(ops) == 5 {
 				return
 			}
 			for m := 0; m < 3; m++ {
